@@ -221,6 +221,19 @@ pub fn check_trace(s: &Script, tr: &Trace, rep: &mut Report) -> Outcome {
                                     e.charge = charge;
                                     slots.insert(index, e);
                                 }
+                            } else if !only_update
+                                && cur.expired(now)
+                                && o.events.iter().any(|e| matches!(e.kind, EvKind::Cb { kind: CB_EVICT, id: i, .. } if i == cur.id))
+                            {
+                                // The validator refused to replace an entry whose TTL had already elapsed, and the
+                                // processor reclaimed that entry before it handled the buffered item (a sweep on the
+                                // admission path): the item then is the first insert of an absent key. Both this and
+                                // "refused, the dead entry stays until the next tick" honour the veto.
+                                rep.count("ls_vetoed_write_on_expired_entry_admitted_after_reclaim");
+                                if ret != Some(true) {
+                                    fail!("C04", "insert/returned-false", "{} returned {ret:?} with an empty buffer", step.short());
+                                }
+                                new_admission = Some((index, Ent { key: k, id, conflict, aux, charge, charge_known: true, t_ins: now, d: ttl_ns }));
                             } else {
                                 // vetoed: value and TTL stay; the buffered item is refused later (and
                                 // re-charges the resident key: an in-place cost update)
